@@ -47,6 +47,21 @@ package scheduler
 //@   loop 1: invariant ncalls(scheduler.PartitionContext.unReserve) == rangeindex + 1
 //@   at[each] call scheduler.PartitionContext.unReserve#1: assert arg0 == pc && arg2 == node && node != nil && (r != nil ==> arg1 == r.app && arg3 == r.alloc)
 
+// application removal: asks (and with them reservations and pending) go first, the queue gives back the totals once,
+// then every allocation the application held is taken off the node that is found for it
+//@ func (pc *PartitionContext) removeApplication(appID string) (allocations []*objects.Allocation)
+//@   props C03 C09 C13
+//@   sweep
+//@   mode nopanic=on
+//@   holds pc != nil
+//@   at[asks] call objects.Application.RemoveAllocationAsk#1: assert arg0 == app && arg1 == "" && app != nil
+//@   at[queue] call objects.Queue.RemoveApplication#1: assert arg0 == app.queue && arg1 == app
+//@   at[allgone] call objects.Application.RemoveAllAllocations#1: assert arg0 == app && ncalls(objects.Application.RemoveAllocationAsk) == 1 && (app.queue != nil ==> ncalls(objects.Queue.RemoveApplication) == 1)
+//@   at[count] call scheduler.PartitionContext.updateAllocationCount#1: assert arg1 == 0 - len(allocations)
+//@   at[elems] call objects.Allocation.GetAllocationKey#1: assume arg0 != nil
+//@   at[nodealloc] call objects.Node.RemoveAllocation#1: assert arg0 == node && arg1 == alloc.allocationKey
+//@   loop 1: each node != nil ==> ncalls(objects.Node.RemoveAllocation) == iter(ncalls(objects.Node.RemoveAllocation)) + 1
+
 // ================================================================ C03: node removal keeps queue and partition counters in step
 
 //@ spec abstract phcounted(a *objects.Allocation) bool
@@ -208,6 +223,7 @@ package scheduler
 //@   at[update] call objects.Queue.ApplyConf#1: assert arg0 == queue && queue != nil
 //@   at[inherit] call objects.Queue.MergeParentProperties#1: assert arg0 == queue
 //@   at[recurse] call scheduler.PartitionContext.updateQueues#1: assert arg2 == queue && queue != nil
+//@   loop 1: each queue != nil && visited[queue.Name]
 
 // a rejected reload changes nothing observable: nothing is installed before the new configuration was validated
 //@ spec abstract cfgvalidated(c *ClusterContext) bool
